@@ -43,3 +43,24 @@ Theorem C04_regenerated_filter : forall fuel t pr pred ans, (forall l, pr l = pr
   Some (walk (fun l => if pred l then Deliver else Skip) expand_fwd fuel [(tabs t, 0%nat)] ans 0 []).
 Proof. exact gen_filter_eq. Qed.
 Print Assumptions C04_regenerated_filter.
+
+(* the regenerated tie: the Prefix METHODS, translated from the Go AST on every run (Gen/ApiGen.v) over the regenerated
+   All / lowestCommonParent / filter, ARE Model.Api.do_prefix on the raw state: the empty prefix is All; the alpha tree
+   filters the subtree lowestCommonParent selects on the RESTORED key (the predicate receives restoreKey's result:
+   pred_restore), the collation tree filters the whole tree on the original bytes (the model's key AC o c also carries
+   the sort key, which the Go side does not return: forget_col); budgets: the model's for All, any budget above the
+   tree size for filter, above the height and the prefix length for lowestCommonParent *)
+From GoArt Require Import Model.Api Model.PoolTree Proofs.PoolTreeFacts Model.GoTree Gen.ApiGen Proofs.TranslateApiFacts.
+Theorem C04_regenerated_alpha_Prefix : forall tr st p ans fa ff fl, sinv st -> root_wf (sabs st) -> keys_ok nonempty_key st ->
+  isbytes p = true ->
+  (forall t, xroot st = Some t -> fa = walk_fuel (tabs t) /\ (tsize (tabs t) < ff)%nat /\
+                                   (theight (tabs t) < fl)%nat /\ (length p + 2 <= fl)%nat) ->
+  kres_out AB (g_alpha_Prefix tr alpha_rs fa ff fl (xroot st) p ans) = do_prefix KAlpha (sabs st) (AB p) ans.
+Proof. exact gen_alpha_prefix_eq. Qed.
+Print Assumptions C04_regenerated_alpha_Prefix.
+Theorem C04_regenerated_collation_Prefix : forall col rs st p ans fa ff, sinv st ->
+  (forall t, xroot st = Some t -> fa = walk_fuel (tabs t) /\ ff = walk_fuel (tabs t)) ->
+  kres_out AB (g_collation_Prefix (col_tr col) rs fa ff (xroot st) p ans) =
+  out_keymap forget_col (do_prefix KCollation (sabs st) (AC p (col p)) ans).
+Proof. exact gen_collation_prefix_eq. Qed.
+Print Assumptions C04_regenerated_collation_Prefix.
